@@ -5,12 +5,13 @@ from fractions import Fraction
 from vlib.framework import Family
 from vlib import coqlit as L
 from vlib.exactq import ExactQ, to_frac
-from harness.C16_util import MixRunner, CtlRunner, F
+import math
+from harness.C16_util import MixRunner, CtlRunner, ValRunner, OBJ_KINDS, F
 
 PID = "C16"
 PROP_FILES = ["Prop"]
 ALLOWED_AXIOMS = []
-RULE = ("round 2: the same histories with the object read through derived objects (iter, Stream(), operators, map, "
+RULE = ("round 3: ControlStream values of every kind (None False 0 0.0 '' () list Stream nan inf callables sentinels; reads classified by identity / type), data items as int bool float Fraction ExactQ, coincidences (events ending / starting on the same sample, cumulative times exactly at .5 with even and odd integer part, empty events).  round 2: the same histories with the object read through derived objects (iter, Stream(), operators, map, "
         "copy, thub, an outer Streamix, a filter coefficient) and its last strong reference dropped (del + gc.collect) "
         "before / between reads; event data of every kind (list tuple deque gen iterator Stream thub Streamix "
         "ControlStream expressions, the same container twice); add() positional / keyword, delta int bool float "
@@ -85,11 +86,12 @@ DKINDS = ["q", "int", "bool", "float", "frac"]
 CALLS = ["pos", "kw", "mixed", "kwrev"]
 ZKINDS = ["int", "float", "q", "frac", "bool", "default"]
 KEEPK = ["kw", "pos", "int", "attr"]
+IKINDS = ["q", "q", "int", "bool", "float", "frac"]
 MVIAS = ["iter", "stream", "add0", "radd0", "mul1", "sigadd", "map", "copy", "thub", "mix", "mixkw"]
 
 
 def rand_opts(rng):
-  return {"ek": rng.choice(EKINDS), "dk": rng.choice(DKINDS), "call": rng.choice(CALLS)}
+  return {"ek": rng.choice(EKINDS), "dk": rng.choice(DKINDS), "call": rng.choice(CALLS), "ik": rng.choice(IKINDS)}
 
 
 def rand_zero(rng):
@@ -156,8 +158,50 @@ def rand_case(rng, life, nev=None, tag="life"):
     tags.append("via=" + via)
   else:
     ops += [["next"]] * rng.randrange(0, 12)
-  return {"keep": rng.random() < 0.3, "keepk": rng.choice(KEEPK), "zero": rand_zero(rng), "ops": ops, "dkind": "q",
-          "tags": tags}
+  return exact_items({"keep": rng.random() < 0.3, "keepk": rng.choice(KEEPK), "zero": rand_zero(rng), "ops": ops,
+                      "dkind": "q", "tags": tags})
+
+
+def exact_items(c):
+  """float / Fraction items only next to a dyadic zero (a Fraction(7, 3) zero plus a float item would be inexact)"""
+  if c["zero"][0] == "frac" and c["zero"][1][1] not in (1, 2, 4, 8):
+    for op in c["ops"]:
+      if op[0] == "add" and len(op) > 3:
+        op[3]["ik"] = "q"
+  return c
+
+
+def gen_coinc(tier, rng):
+  """coincidences: k events (queued before playback) whose ENDS fall on one sample (lengths chosen from the start
+  samples), events STARTING on one sample (deltas 0 or sub-sample), cumulative times exactly at n + 1/2 (n even and
+  odd, reached directly and as sums like 1/3 + 1/6), empty events in between"""
+  halves = [Fraction(1, 2), Fraction(3, 2), Fraction(5, 2), Fraction(7, 2), Fraction(9, 2), Fraction(13, 2)]
+  for n in range(120 if tier == "quick" else 1500):
+    k = rng.choice([2, 2, 3, 4])
+    mode = rng.choice(["ends", "ends", "starts", "ties", "ends+ties"])
+    ds, T = [], Fraction(0)
+    for i in range(k):
+      if mode == "starts":
+        d = rng.choice([Fraction(0), Fraction(0), Fraction(1, 3), Fraction(1, 6), Fraction(1, 8)]) if i else rng.choice(DELTAS)
+      elif "ties" in mode:
+        d = rng.choice(halves) - (T % 1) if rng.random() < 0.7 else rng.choice([Fraction(1, 3), Fraction(1, 6), Fraction(2)])
+        d = d if d >= 0 else d + 1
+      else:
+        d = rng.choice(DELTAS + [Fraction(2), Fraction(7, 3)])
+      T += d
+      ds.append((d, math.ceil(T - Fraction(1, 2))))
+    end = max(st for _, st in ds) + rng.randrange(0, 4)
+    adds = []
+    for i, (d, st) in enumerate(ds):
+      ln = end - st if "ends" in mode else rng.randrange(0, 4)
+      if rng.random() < 0.12: ln = 0
+      o = rand_opts(rng)
+      adds.append(["add", fr(d), [fr(Fraction(rng.randrange(-9, 10), rng.choice([1, 2, 4]))) for _ in range(ln)], o])
+    extra = [["add", fr(Fraction(0)), rand_data(rng, 3), rand_opts(rng)]] if rng.random() < 0.3 else []
+    pre = rng.randrange(0, 3) if rng.random() < 0.3 else 0
+    ops = [["next"]] * pre + adds + [["next"]] * rng.randrange(1, end + 2) + extra + [["next"]] * (end + 6)
+    yield exact_items({"keep": rng.random() < 0.25, "keepk": rng.choice(KEEPK), "zero": rand_zero(rng), "ops": ops,
+                       "dkind": "q", "tags": ["coinc", mode, "k=%d" % k]})
 
 
 def gen_kinds(tier, rng):
@@ -200,6 +244,8 @@ def gen_mix(tier, rng):
   for c in gen_kinds(tier, rng):
     yield c
   for c in gen_end(tier, rng):
+    yield exact_items(c)
+  for c in gen_coinc(tier, rng):
     yield c
   for _ in range(400 if tier == "quick" else 6000):
     yield rand_case(rng, life=True)
@@ -219,7 +265,7 @@ def gen_mixes(tier, rng):
         subs.append(rand_case(rng, life=rng.random() < 0.3, nev=rng.randrange(0, 5), tag="multi"))
         continue
       t = json_copy(subs[0])
-      if mode == "twin_zero": t["zero"] = rand_zero(rng)
+      if mode == "twin_zero": t["zero"] = rand_zero(rng); exact_items(t)
       if mode == "twin_keep": t["keep"] = not t["keep"]
       if mode == "twin_data":
         adds = [op for op in t["ops"] if op[0] == "add"]
@@ -413,6 +459,100 @@ def nontrivial_ctls(c, o):
   return len(set(c["sched"][:len(c["sched"]) // 2 + 1])) > 1 and any("s" in [op[0][0] for op in s["ops"]] for s in c["subs"])
 
 
+VVIAS = ["iter", "stream", "map", "copy", "thub"]     # routes that hand the value on untouched
+VPOOL = ([["none"], ["bool", False], ["bool", True], ["int", 0], ["int", 1], ["int", -(2 ** 63)], ["float", [0, 1]],
+          ["float", [5, 2]], ["frac", [0, 1]], ["q", [0, 1]], ["q", [7, 3]], ["str", ""], ["str", "None"], ["str", "a"]]
+         + [["obj", i] for i in range(len(OBJ_KINDS))])
+
+
+def vtag(v):
+  return "v=" + (OBJ_KINDS[v[1]] if v[0] == "obj" else v[0] + (":" + str(v[1]) if v[0] in ("bool", "str") else ""))
+
+
+def gen_ctlv(tier, rng):
+  """every value KIND as constructor argument, as a later assignment, assigned twice, followed by ordinary values;
+  then random histories over the pool, read directly or through a derived object, with the object dropped"""
+  objs = list(OBJ_KINDS)
+  num = ["int", 7]
+  for v in VPOOL:
+    for w in (num, ["none"], ["obj", 3]):
+      yield {"v0": v, "objs": objs, "ops": [["next"], ["next"], ["set", w], ["next"], ["set", v], ["next"], ["next"]], "tags": ["ctor", vtag(v)]}
+      yield {"v0": w, "objs": objs, "ops": [["next"], ["set", v], ["next"], ["next"], ["set", v], ["next"], ["set", w], ["next"], ["next"]], "tags": ["assign", vtag(v)]}
+      yield {"v0": w, "objs": objs, "ops": [["set", v], ["set", w], ["next"], ["set", v], ["derive", VVIAS[len(vtag(v)) % 5]], ["next"], ["drop", True], ["next"]], "tags": ["derived", vtag(v)]}
+  for _ in range(300 if tier == "quick" else 4000):
+    yield rand_ctlv(rng, objs)
+
+
+def rand_ctlv(rng, objs, tag="random"):
+  base = [["next"] if rng.random() < 0.5 else ["set", rng.choice(VPOOL)] for _ in range(rng.randrange(1, 9))]
+  c = {"v0": rng.choice(VPOOL), "objs": objs, "ops": base + [["next"]], "tags": [tag]}
+  if rng.random() < 0.4:
+    last_set = max([i for i, op in enumerate(base) if op[0] == "set"] + [-1])
+    pd = rng.randrange(0, len(base) + 1)
+    ops = base[:pd] + [["derive", rng.choice(VVIAS)]] + base[pd:]
+    px = rng.randrange(max(last_set + (2 if pd <= last_set else 1), pd + 1), len(ops) + 1)
+    c["ops"] = ops[:px] + [["drop", rng.random() < 0.7]] + ops[px:] + [["next"]] * rng.randrange(1, 4)
+    c["tags"].append("life")
+  return c
+
+
+def gen_ctlvs(tier, rng):
+  for _ in range(100 if tier == "quick" else 1500):
+    subs = [rand_ctlv(rng, list(OBJ_KINDS), "multi") for _ in range(rng.choice([2, 2, 3]))]
+    sched = [i for i, c in enumerate(subs) for _ in c["ops"]]
+    rng.shuffle(sched)
+    yield {"subs": subs, "sched": sched, "lazy": rng.random() < 0.5, "tags": ["multi", "k=%d" % len(subs)]}
+
+
+def run_ctlv(c):
+  r = ValRunner(c)
+  return {"vals": [v for v in (r.step(op) for op in c["ops"]) if v is not None]}
+
+
+def run_ctlvs(c):
+  subs = c["subs"]
+  rs = [None if c["lazy"] else ValRunner(s) for s in subs]
+  pos, vals = [0] * len(subs), [[] for _ in subs]
+  for i in c["sched"]:
+    if rs[i] is None:
+      rs[i] = ValRunner(subs[i])
+    v = rs[i].step(subs[i]["ops"][pos[i]])
+    pos[i] += 1
+    if v is not None:
+      vals[i].append(v)
+  return {"subs": [{"vals": v} for v in vals]}
+
+
+def vlit(v):
+  k = v[0]
+  if k == "none": return "VNone"
+  if k == "bool": return "(VBool %s)" % L.boolean(bool(v[1]))
+  if k == "int": return "(VInt %s)" % L.z(int(v[1]))
+  if k == "float": return "(VFloat %s)" % q(v[1])
+  if k in ("q", "frac"): return "(VQ %s)" % q(v[1])
+  if k == "str": return "(VStr %s)" % L.string(v[1])
+  if k == "obj": return "(VObj %s)" % L.nat(v[1])
+  if k == "stopped": return "VStopped"
+  return "(VRaised %s)" % L.string(str(v[1] if len(v) > 1 else "?"))
+
+
+def lit_ctlv(c, o):
+  ops = ["(CSet %s)" % vlit(op[1]) if op[0] == "set" else "CNext" for op in c["ops"] if op[0] in ("set", "next")]
+  vals = [vlit(v) for v in o["vals"]] if "vals" in o else [vlit(["raise", o.get("raise", "?")])]
+  return "(VC %s %s %s)" % (vlit(c["v0"]), L.lst(ops), L.lst(vals))
+
+
+def lit_ctlvs(c, o):
+  subs = o.get("subs") or [{"raise": o.get("raise", "?")}] * len(c["subs"])
+  return L.lst([lit_ctlv(s, so) for s, so in zip(c["subs"], subs)])
+
+
+def nontrivial_ctlv(c, o):
+  vals = [c["v0"]] + [op[1] for op in c["ops"] if op[0] == "set"]
+  return any(v[0] not in ("int", "float", "q", "frac") or v[1] in (0, [0, 1]) for v in vals) and \
+    sum(op[0] == "next" for op in c["ops"]) >= 2
+
+
 IMPORTS = "From AL Require Import C16.Model C16.Spec C16.Check."
 FAMILIES = {
   "mix": Family("mix", IMPORTS, "mcase", "corr_mix", "holds_mix", gen_mix, run_mix, lit_mix, nontrivial_mix),
@@ -421,4 +561,7 @@ FAMILIES = {
                   nontrivial_mixes),
   "ctls": Family("ctls", IMPORTS, "(list ccase)", "corr_ctls", "holds_ctls", gen_ctls, run_ctls, lit_ctls,
                  nontrivial_ctls),
+  "ctlv": Family("ctlv", IMPORTS, "vcase", "corr_ctlv", "holds_ctlv", gen_ctlv, run_ctlv, lit_ctlv, nontrivial_ctlv),
+  "ctlvs": Family("ctlvs", IMPORTS, "(list vcase)", "corr_ctlvs", "holds_ctlvs", gen_ctlvs, run_ctlvs, lit_ctlvs,
+                  lambda c, o: any(nontrivial_ctlv(s, None) for s in c["subs"])),
 }
